@@ -278,6 +278,9 @@ def build_valid(rng, fmt, ctx):
 EXT = {'RP66V1': ['.dlis', '.DLIS', '.bin'], 'LIS': ['.lis', '.LIS', '.tap'], 'BIT': ['.bit', '.BIT', '.dat']}
 
 
+_QUIRKS = [0]
+
+
 def make_dir(rng, ctx, root, same_stem=False, carry=False, probe=None, full=False):
     """returns list of (relative path, class) of the files written under root"""
     os.makedirs(root)
@@ -311,7 +314,13 @@ def make_dir(rng, ctx, root, same_stem=False, carry=False, probe=None, full=Fals
             # a conformant RP66V1 file whose ORIGIN lacks something the converter reads (an Absent Attribute, or the label is
             # not in the template): the converter may fail on it or convert it, but must do the same in every mode
             lab = rng.choice([b'CREATION-TIME', b'CREATION-TIME', b'WELL-NAME', b'FIELD-NAME', b'COMPANY', b'PRODUCER-NAME'])
-            fmt, data = 'RP66V1', c11.build_dlis(rng, origin_kw={rng.choice(['absent', 'absent', 'omit']): (lab,)})[0]
+            how = rng.choice(['absent', 'absent', 'omit'])
+            if full and i == nbad:
+                # the one every full directory has: each attribute in turn, absent first (not drawn)
+                labs_ = [b'CREATION-TIME', b'WELL-NAME', b'COMPANY', b'FIELD-NAME', b'PRODUCER-NAME']
+                lab, how = labs_[_QUIRKS[0] % len(labs_)], ('absent', 'omit')[(_QUIRKS[0] // len(labs_)) % 2]
+                _QUIRKS[0] += 1
+            fmt, data = 'RP66V1', c11.build_dlis(rng, origin_kw={how: (lab,)})[0]
         else:
             data = damage(rng, base, kind)
         rel = stems[k] + rng.choice(EXT[fmt] + ['.txt', ''])
@@ -548,6 +557,7 @@ def proclog_extra(ctx):
 
 
 def run(ctx):
+    _QUIRKS[0] = 0
     repo.setup()
     from ..core import quiet_logging
     quiet_logging()
